@@ -22,7 +22,7 @@ EXPLANATION = (
     'selected on the hint path is the one the fall-back selects for the value it stores '
     '(C14-hint). The load-time order checks that make the bracket decisive are present for every '
     'consecutive pair (C14-order). In the loader a cache hit leaves without reaching the data '
-    'source and every load outcome, success or failure, is recorded non-null (C14-cache). From '
+    'source and every load outcome, success or failure, is recorded non-null, under the very name the Impl was built for (C14-cache). From '
     'the query entry points no mutable static and no environment/clock call is reachable '
     '(C14-effect). Decides that hidden state is validated before use; not the answers themselves.')
 LEVEL = ('Structural proof that every piece of state surviving a call is either immutable, a validated hint, '
@@ -199,6 +199,8 @@ def run(ctx):
                   'a path from the load leaves the loader without consulting/recording the cache slot: the '
                   'outcome of that load is forgotten and the source is consulted again next time',
                   construct='unrecorded:%s' % L['fname'], detail='slot test/insert post-dominates the load')
+    # ... and an entry is found again only under the name it was built for
+    loader.check_cache_key(ctx, 'C14-cache')
     ctx.minimum('C14-cache', 4)
 
     # ---- C14-effect
